@@ -1581,7 +1581,7 @@ class SortInd(Family):
             if not cyc:
                 fails.append(("sortind-raises", obs["error"]))
             if a != b:
-                fails.append(("sortind-error-modified-tables:parent-cycle" if cyc else "sortind-error-modified-tables",
+                fails.append(("sortind-error-modified-tables",
                               "%s, and %d individual rows became %d" % (obs["error"], len(b["individuals"]), len(a["individuals"]))))
             return fails
         if cyc:
